@@ -284,6 +284,7 @@ Proof.
   - left. exists start. inversion H; subst. auto.
   - right. exists tk, k. gd H. split_guards.
     destruct (attach_loop _ _ _ _) as [newlog|] eqn:Hloop; [|discriminate].
+    destruct (negb (length newlog <=? length (nlog (nodes w l)))); [discriminate|].
     inversion H; subst.
     apply Nat.eqb_eq in H6. apply status_eqb_eq in H8.
     repeat (split; [auto|]). exists newlog. auto.
